@@ -209,6 +209,111 @@ def check_wrapper(ctx, u, rec):
         return None
 
     methods = [m for m in walk(rec) if m.get('kind') in FUNC_KINDS and body_of(m) is not None and not m.get('isImplicit') and not m.get('explicitlyDefaulted') and u.record_of(m) is rec]
+    all_members = {x.get('id'): x for x in walk(rec) if x.get('kind') in FUNC_KINDS and body_of(x) is not None}
+
+    def base_type(t):
+        return (t or '').replace('const ', '').replace('&', '').replace('volatile ', '').strip()
+
+    def sym_method(f, cur, args, depth=0):
+        """(term of this->value afterwards, returned term) of a straight-line member function; terms:
+        'X0' initial exposed value, 'D' the operand, ('S', t) / ('L', t) the store / load conversions with
+        L(S(x)) = x, ('bin', op, a, b), ('narrow', type, t) a conversion the native operation does not have"""
+        if depth > 4:
+            raise SymUnrec('helper depth')
+        env = {}
+        ps = params_of(f)
+        for p_, a_ in zip(ps, args):
+            env[p_['id']] = a_
+        state = {'cur': cur}
+
+        def simp(t):
+            if isinstance(t, tuple) and t[0] == 'L' and isinstance(t[1], tuple) and t[1][0] == 'S':
+                return simp(t[1][1])
+            if isinstance(t, tuple):
+                return tuple(simp(x_) if isinstance(x_, tuple) else x_ for x_ in t)
+            return t
+
+        def inner_type(e):
+            e0 = strip(e)
+            while e0 is not None and e0.get('kind') in ('ImplicitCastExpr', 'ParenExpr', 'ExprWithCleanups', 'MaterializeTemporaryExpr') and kids(e0):
+                e0 = strip(kids(e0)[0])
+            return base_type(dtype(e0))
+
+        def bind(decl, e, t):
+            dt, it = base_type(dtype(decl)), inner_type(e)
+            if dt != it and isinstance(t, (tuple, str)) and t != ('this',):
+                return ('narrow', dt, t)
+            return t
+
+        def term(e):
+            e0 = strip(e)
+            while e0 is not None and e0.get('kind') in ('ImplicitCastExpr', 'ParenExpr', 'CStyleCastExpr', 'CXXStaticCastExpr', 'CXXFunctionalCastExpr', 'ExprWithCleanups', 'MaterializeTemporaryExpr') and kids(e0):
+                if is_load(e0):
+                    break
+                if e0.get('kind') in ('CStyleCastExpr', 'CXXStaticCastExpr', 'CXXFunctionalCastExpr') and base_type(dtype(e0)) != inner_type(kids(e0)[0]):
+                    return ('narrow', base_type(dtype(e0)), term(kids(e0)[0]))
+                e0 = strip(kids(e0)[0])
+            if e0 is None:
+                raise SymUnrec('empty expression')
+            if is_load(e0):
+                return simp(('L', state['cur']))
+            so = is_store_of(e0)
+            if so is not None:
+                return ('S', term(so))
+            if _is_value(e0):
+                return state['cur']
+            k = e0.get('kind')
+            if k == 'DeclRefExpr' and (ref_decl(e0) or {}).get('id') in env:
+                return env[ref_decl(e0)['id']]
+            if k == 'UnaryOperator' and e0.get('opcode') == '*' and is_this(e0['inner'][0]):
+                return ('this',)
+            if k == 'BinaryOperator' and e0.get('opcode') in OPS.values():
+                return ('bin', e0['opcode'], term(e0['inner'][0]), term(e0['inner'][1]))
+            if k == 'UnaryOperator' and e0.get('opcode') in ('-', '~', '+'):
+                return ('un', e0['opcode'], term(e0['inner'][0]))
+            if k == 'CXXOperatorCallExpr' and len(kids(e0)) == 3 and term(kids(e0)[1]) == ('this',):
+                d_ = ref_decl(kids(e0)[0])
+                tgt = all_members.get((d_ or {}).get('id'))
+                if tgt is None or tgt is f:
+                    raise SymUnrec('call of %s' % call_name(e0))
+                a_ = kids(e0)[2]
+                c2, r2 = sym_method(tgt, state['cur'], [bind(params_of(tgt)[0], a_, term(a_))], depth + 1)
+                state['cur'] = c2
+                return r2
+            if k == 'CXXMemberCallExpr' and (member_call_object(e0) is None or is_this(member_call_object(e0))):
+                me = strip(kids(e0)[0])
+                tgt = all_members.get((me.get('referencedMemberDecl') if me is not None else None))
+                if tgt is None:
+                    d_ = callee_decl(e0, u)
+                    tgt = all_members.get((d_ or {}).get('id'))
+                if tgt is None or tgt is f:
+                    raise SymUnrec('call of %s' % call_name(e0))
+                av = [bind(p_, a_, term(a_)) for p_, a_ in zip(params_of(tgt), call_args(e0))]
+                c2, r2 = sym_method(tgt, state['cur'], av, depth + 1)
+                state['cur'] = c2
+                return r2
+            raise SymUnrec('expression `%s`' % src_text(e0, 40))
+        ret = None
+        for st_ in stmts_of(body_of(f)):
+            s0 = strip(st_)
+            k = s0.get('kind')
+            if k == 'DeclStmt':
+                for vd in kids(s0):
+                    if vd.get('kind') != 'VarDecl' or not kids(vd):
+                        raise SymUnrec('declaration')
+                    env[vd['id']] = bind(vd, kids(vd)[-1], term(kids(vd)[-1]))
+            elif stored_expr(s0) is not None:
+                state['cur'] = ('S', term(stored_expr(s0)))
+            elif k == 'BinaryOperator' and s0.get('opcode') == '=' and _is_value(s0['inner'][0]):
+                state['cur'] = term(s0['inner'][1])
+            elif k == 'ReturnStmt':
+                ret = term(kids(s0)[0]) if kids(s0) else None
+                break
+            elif k == 'CXXMemberCallExpr':
+                term(s0)
+            else:
+                raise SymUnrec('statement `%s`' % src_text(s0, 40))
+        return simp(state['cur']), (simp(ret) if isinstance(ret, tuple) else ret)
     n_ops = 0
     for m in methods:
         nm = m.get('name')
@@ -269,7 +374,43 @@ def check_wrapper(ctx, u, rec):
                                 good = True
                             else:
                                 why = 'does not return *this'
-            ctx.check(good, R, mkey + '|shape', m, 'value = Store(Load(value) %s delta); return *this' % op, why)
+            sym_und = None
+            if not good and why.startswith('body is not'):
+                # another arrangement (helpers, named temporaries): derive the stored term by symbolic execution
+                try:
+                    cur_, ret_ = sym_method(m, ('S', 'X0'), ['D'])
+                    def un_narrow(t_):
+                        return un_narrow(t_[2]) if isinstance(t_, tuple) and t_[0] == 'narrow' and t_[1].replace('const ', '') == exposed else t_
+                    c2 = cur_
+                    if isinstance(c2, tuple) and c2[0] == 'S':
+                        c2 = ('S', un_narrow(c2[1]))
+                    if isinstance(c2, tuple) and c2[0] == 'S' and isinstance(c2[1], tuple) and c2[1][0] == 'bin' and c2[1][1] in ('+', '*', '&', '|', '^') and c2[1][2:] == ('D', 'X0'):
+                        c2 = ('S', ('bin', c2[1][1], 'X0', 'D'))
+                    if c2 == ('S', ('bin', op, 'X0', 'D')) and ret_ == ('this',):
+                        good = True
+                    elif c2 != ('S', ('bin', op, 'X0', 'D')):
+                        why = 'the stored value is %s, not Store(Load(value) %s delta)' % (show_term(cur_), op)
+                    else:
+                        why = 'returns %s, not *this' % show_term(ret_)
+                except SymUnrec as e_:
+                    sym_und = str(e_)
+            if sym_und is not None:
+                ctx.undecided(R, mkey + '|shape', m, 'operator%s= is not written in a form the rule reads (%s)' % (op, sym_und))
+            else:
+                ctx.check(good, R, mkey + '|shape', m, 'value = Store(Load(value) %s delta); return *this' % op, why)
+            # the operand enters the operation in its own type (the native `n op= d` computes in the common type
+            # of n and d and narrows afterwards): the operand parameter is the deduced template parameter
+            pt = (dtype(params_of(m)[0]) or '').replace('const ', '').replace('&', '').strip() if params_of(m) else None
+            siblings = [m2 for m2 in methods if m2.get('name') == nm and not targs(m2)]
+            if mta:
+                if pt == mta[0].replace('const ', '').strip():
+                    ctx.ok(R, mkey + '|operand-type', m, 'operand taken as the deduced type %s' % mta[0])
+                else:
+                    ctx.undecided(R, mkey + '|operand-type', m, 'operand parameter has type %s for template argument %s' % (pt, mta[0]))
+            elif len(siblings) > 1:
+                ctx.undecided(R, mkey + '|operand-type', m, 'operator%s= is an overload set over fixed operand types' % op)
+            else:
+                ctx.bad(R, mkey + '|operand-type', m, 'operator%s= takes its operand as %s: an operand of another type is converted to it before the operation (`x %s= 2u` on a signed wrapper, a floating or wider operand), whereas the native type computes `x %s d` in the common type of both and narrows afterwards' % (op, pt, op, op))
         elif nm in ('operator++', 'operator--'):
             n_ops += 1
             op = '+' if nm == 'operator++' else '-'
@@ -351,6 +492,28 @@ def check_wrapper(ctx, u, rec):
                 (ref_decl(is_store_of(a['inner'][1]) or {}) or {}).get('kind') == 'ParmVarDecl'
             ctx.check(ok, R, mkey + '|stores', m, 'value = OnStoreSt::fn(v)', 'does not store OnStoreSt::fn(v)')
     return n_ops
+
+
+class SymUnrec(Exception):
+    pass
+
+
+def show_term(t):
+    if isinstance(t, tuple):
+        if t[0] == 'S':
+            return 'Store(%s)' % show_term(t[1])
+        if t[0] == 'L':
+            return 'Load(%s)' % show_term(t[1])
+        if t[0] == 'bin':
+            return '(%s %s %s)' % (show_term(t[2]), t[1], show_term(t[3]))
+        if t[0] == 'narrow':
+            return '(%s)%s' % (t[1], show_term(t[2]))
+        if t[0] == 'this':
+            return '*this'
+        if t[0] == 'un':
+            return '%s%s' % (t[1], show_term(t[2]))
+        return str(t)
+    return {'X0': 'Load(value)', 'D': 'delta'}.get(t, str(t))
 
 
 def memcpy_puns(body):
